@@ -246,18 +246,21 @@ nni_dialer_init(nni_dialer *d, nni_sock *s, nni_sp_tran *tran)
 
 	rv = d->d_ops.d_init(dp, &d->d_url, d);
 
-	if (rv == 0) {
-		rv = nni_sock_add_dialer(s, d);
-	}
-
+	// Get the id before the socket can see us: a socket that is being
+	// closed closes everything on its list at once, and that has to
+	// take the id out of the table again.
 	if (rv == 0) {
 		nni_mtx_lock(&dialers_lk);
 		rv = nni_id_alloc32(&dialers, &d->d_id, d);
 		nni_mtx_unlock(&dialers_lk);
-		if (rv != 0) {
-			// Our caller is going to free us; do not stay on
-			// the socket's list.
-			nni_sock_remove_dialer(d);
+	}
+
+	if (rv == 0) {
+		if ((rv = nni_sock_add_dialer(s, d)) != 0) {
+			// Our caller is going to free us.
+			nni_mtx_lock(&dialers_lk);
+			nni_id_remove(&dialers, d->d_id);
+			nni_mtx_unlock(&dialers_lk);
 		}
 	}
 
